@@ -1,9 +1,10 @@
 #!/bin/bash
-# tools/seedall.sh [tier] [filter]: every kept seeded change against its property's check on the current tree; one at a time
-# (the patch is applied to /repo itself and reverted straight afterwards). Writes seeded/RESULTS.txt.
+# tools/seedall.sh [tier] [filter] [outfile]: every kept seeded change against its property's check on the current tree; one at a time
+# (the patch is applied to /repo itself and reverted straight afterwards). Writes seeded/RESULTS.txt (or outfile); VERIF_SEED is passed on.
+# A filtered run should name another outfile, or RESULTS.txt holds only the filtered part afterwards.
 tier=${1:-quick}; filter=${2:-.}
 cd /verif || exit 2
-out=/verif/seeded/RESULTS.txt; : > $out.tmp
+out=${3:-/verif/seeded/RESULTS.txt}; : > $out.tmp
 for d in /verif/seeded/*/; do
   id=$(basename $d); echo "$id" | grep -q -E "$filter" || continue
   prop=$(python3 -c "import json;print(json.load(open('$d/meta.json'))['property'])")
